@@ -33,11 +33,15 @@ size_t gk;      /* ghost byte index            */
 size_t gi;      /* ghost element / member index */
 size_t gj;      /* second ghost index           */
 size_t gp;      /* ghost first-difference index (C19)  */
+uint64_t g_soff; /* ghost absolute source offset (stream contracts) */
 
 const char* g_addr;   /* ghost: an arbitrary byte address */
 size_t nondet_size_t(void);
 const char* nondet_ptr(void);
-#define OP2_HAVOC_GHOSTS() do { gk = nondet_size_t(); gi = nondet_size_t(); gj = nondet_size_t(); gp = nondet_size_t(); g_addr = nondet_ptr(); } while (0)
+#ifndef OP2_EXTRA_GHOSTS
+#define OP2_EXTRA_GHOSTS
+#endif
+#define OP2_HAVOC_GHOSTS() do { OP2_EXTRA_GHOSTS; gk = nondet_size_t(); gi = nondet_size_t(); gj = nondet_size_t(); gp = nondet_size_t(); g_soff = nondet_size_t(); g_addr = nondet_ptr(); } while (0)
 
 /* ---- std:: helpers mapped 1:1 ----------------------------------------- */
 #define OP2_SWAP(a, b) do { __typeof__(a) op2_swap_tmp = (a); (a) = (b); (b) = op2_swap_tmp; } while (0)
@@ -52,6 +56,7 @@ const char* nondet_ptr(void);
 #define OP2_MIN_int64_t  INT64_MIN
 #define OP2_MAX_int64_t  INT64_MAX
 #define OP2_MAX_int16_t  INT16_MAX
+#define OP2_MAX_int8_t   INT8_MAX
 #define OP2_MIN_int16_t  INT16_MIN
 #define OP2_MIN(a, b) ((a) < (b) ? (a) : (b))
 
@@ -67,6 +72,8 @@ static inline bool op2_bytes_eq(const void* a, const void* b, size_t n)
 #define OP2_BYTES_EQ(a, b) (sizeof(a) <= 32 ? op2_bytes_eq(&(a), &(b), sizeof(a)) : (memcmp(&(a), &(b), sizeof(a)) == 0))
 #define OP2_AC(A, v, k) ((k) < sizeof((A).e) / sizeof((A).e[0]) && (A).e[(k) < sizeof((A).e) / sizeof((A).e[0]) ? (k) : 0] == (v))
 #define OP2_ARR_CONTAINS(A, v) (OP2_AC(A, v, 0) || OP2_AC(A, v, 1) || OP2_AC(A, v, 2) || OP2_AC(A, v, 3) || OP2_AC(A, v, 4) || OP2_AC(A, v, 5) || OP2_AC(A, v, 6) || OP2_AC(A, v, 7))
+
+#define OP2_TMP_ADDR(x) (&(__typeof__(x)){ x })
 
 /* 128-bit helpers so that specifications cannot wrap */
 #define W(x) ((U128)(x))
